@@ -247,6 +247,10 @@ class Fn:
             for st in b["stmts"]:
                 if st["k"] == "assign" and st["p"]["local"] == 0 and not st["p"]["proj"] and st["rv"]["k"] == "agg" and st["rv"]["name"].endswith("Result::Err"):
                     out.append(bi)
+            t = b["term"]
+            if t["k"] == "call" and t["dest"]["local"] == 0 and not t["dest"]["proj"] and "from_residual" in t["callee"]:
+                # `?` propagating an error: the residual is written straight into the return place
+                out.append(bi)
         return out
 
     def switch_edges(self, bi):
@@ -269,6 +273,12 @@ def callee_key(t):
     """canonical short name of a call's callee: 'Owner::method' / 'Trait::method' / 'path::fn'"""
     c = t["callee"] or t["raw"]
     c2 = c
+    m = re.search(r"<impl (.+) for ([^<>]+(<.*>)?)>::([A-Za-z0-9_]+)((::\{closure#\d+\})*)$", c2)
+    if m:
+        return f"{short_ty(m.group(2))}::{m.group(4)}[{last_seg(strip_generics(m.group(1)))}]" + m.group(5)
+    m = re.search(r"<impl ([^<>]+(<.*>)?)>::([A-Za-z0-9_]+)((::\{closure#\d+\})*)$", c2)
+    if m:
+        return f"{short_ty(m.group(1))}::{m.group(3)}" + m.group(4)
     m = re.match(r"^<(.+) as (.+)>::([A-Za-z0-9_]+)$", c2)
     if m:
         return f"{short_ty(m.group(1))}::{m.group(3)}[{last_seg(strip_generics(m.group(2)))}]"
